@@ -5,7 +5,7 @@ import ast
 from typing import Any, Dict, List, Optional
 
 from . import terms as T
-from .values import (Columns, DefaultDict, ClassRef, Each, EnumRef, ExtMod, Frame, FuncRef, GroupBy, Obj, PyTuple, Ser, to_term)
+from .values import (Columns, DefaultDict, ClassRef, Each, EnumRef, ExtMod, Frame, FuncRef, GenCall, GroupBy, Obj, PyTuple, Ser, to_term)
 
 _CMP_METH = {"lt": "<", "le": "<=", "gt": ">", "ge": ">=", "eq": "==", "ne": "!="}
 REDUCTIONS = {"sum", "min", "max", "mean", "std", "count", "median", "nunique", "idxmax", "idxmin", "first", "last", "any", "all", "var", "prod", "size"}
@@ -538,6 +538,8 @@ class SeriesOps:
     # ------------------------------------------------------------------ builtins
     def builtin(self, fn: str, pos: List[Any], kw: Dict[str, Any], node) -> Any:
         I = self.I
+        if any(isinstance(p_, GenCall) for p_ in pos) and fn not in ("iter", "next", "isinstance", "type", "id"):
+            pos = [I.materialise(p_) if isinstance(p_, GenCall) else p_ for p_ in pos]          # the builtin consumes the generator
         a0 = pos[0] if pos else None
         conc = I._concrete_seq(a0) if pos else None
         if fn == "len":
